@@ -14,7 +14,7 @@ RULE = ("random histories (5-40 operations) over the 24 listed AnnealResults ope
         "operation sequence with operands")
 TIERS = {"quick": {"shards": 4, "cases": 10000}, "thorough": {"shards": 16, "cases": 40000}}
 FLOOR_BASE = {"quick": 900, "thorough": 20000}    # case counts the floors below were calibrated for; the launcher scales them
-OPS = ["construct", "append", "add_state", "insert", "remove", "pop", "extend", "add", "iadd",
+OPS = ["getitem", "rejected", "construct", "append", "add_state", "insert", "remove", "pop", "extend", "add", "iadd",
        "mul", "slice", "setitem", "delitem", "setslice", "delslice", "clear", "sort", "copy",
        "filter", "filter_states", "apply_function", "convert_states", "to_boolean", "to_spin"]
 
@@ -23,7 +23,7 @@ def FLOORS(tier):
     f = {"op:" + o: (40 if tier == "quick" else 400) for o in OPS}
     f.update({"operand:empty-other": 30, "operand:empty-self": 30, "inv-checks": 5000, "continue-on-derived": 300,
               "operand:equal-but-distinct-copy": 200, "sort:with-key": 50, "values:with-inf": 60, "values:only-inf": 60,
-              "filter:stateful-predicate": 30, "setslice:extended": 20, "operand-kind:setslice:gen": 10, "operand-kind:setslice:iter": 10})
+              "filter:stateful-predicate": 30, "getitem:numpy.int64": 10, "getitem:__index__-object": 10, "setslice:extended": 20, "operand-kind:setslice:gen": 10, "operand-kind:setslice:iter": 10})
     return f
 
 
@@ -37,6 +37,14 @@ def _rresult(rng, values=VALUES):
     n = rng.randint(0, 3)
     st = {i: (rng.choice((1, -1)) if spin else rng.choice((0, 1))) for i in range(n)}
     return L.sim.AnnealResult(st, rng.choice(values), spin)
+
+
+class _Index:
+    def __init__(self, i):
+        self.i = i
+
+    def __index__(self):
+        return self.i
 
 
 def check_inv(ctx, op, res, shadow, hist, flags=""):
@@ -128,7 +136,66 @@ def case(ctx, rng, idx):
                         return map(lambda x: x, items)
                     return AR(items)
             # ---- apply to shadow first (decides whether a list would accept) -
-            if op == "construct":
+            if op == "rejected":
+                # an operation a plain list rejects (wrong index type, index out of range, unequal extended-slice lengths, a
+                # non-iterable operand): the same exception type, and the collection -- elements and best -- as it was
+                r = rresult(rng)
+                r.value = min([x.value for x in shadow] + [0]) - 1          # would be the new minimum
+                kind_ = rng.choice(["insert-float-index", "insert-none-index", "setitem-out-of-range", "setitem-float-index",
+                                    "setslice-wrong-length", "extend-non-iterable", "iadd-non-iterable", "setslice-non-iterable",
+                                    "pop-float-index", "delitem-none-index"])
+                desc += [kind_, (r.state, r.value, r.spin)]
+                calls = {"insert-float-index": lambda c: c.insert(1.5, r), "insert-none-index": lambda c: c.insert(None, r),
+                         "setitem-out-of-range": lambda c: c.__setitem__(len(c) + 3, r), "setitem-float-index": lambda c: c.__setitem__(0.0, r),
+                         "setslice-wrong-length": lambda c: c.__setitem__(slice(0, None, 2), [r] * (len(c[::2]) + 1)),
+                         "extend-non-iterable": lambda c: c.extend(7), "iadd-non-iterable": lambda c: c.__iadd__(7),
+                         "setslice-non-iterable": lambda c: c.__setitem__(slice(0, 1), 7),
+                         "pop-float-index": lambda c: c.pop(0.5), "delitem-none-index": lambda c: c.__delitem__(None)}
+                ctx.cat("rejected:" + kind_)
+                before_list = list(shadow)
+                try:
+                    calls[kind_](shadow)
+                    exp_t = None
+                except Exception as e0:   # noqa
+                    exp_t = type(e0)
+                shadow[:] = before_list
+                if exp_t is None:
+                    raise RuntimeError("harness: a plain list accepted " + kind_)
+                got_t = None
+                before_best = res.best
+                try:
+                    calls[kind_](res)
+                except Exception as e1:   # noqa
+                    got_t = type(e1)
+                hist.append(desc)
+                if got_t is not exp_t:
+                    ctx.violation("rejected:%s:%s-instead-of-%s" % (kind_, got_t.__name__ if got_t else "accepted", exp_t.__name__),
+                                  "a plain list raises %s; AnnealResults %s" % (exp_t.__name__, "raised " + got_t.__name__ if got_t else "accepted it"), {"history": hist})
+                    return
+                if not check_inv(ctx, "rejected:" + kind_, res, shadow, hist, flags):
+                    return
+                if res.best is not before_best and not (res.best == before_best):
+                    ctx.violation("rejected:%s:best-changed" % kind_, "a rejected operation changed best from %r to %r" % (before_best, res.best), {"history": hist})
+                    return
+                continue
+            elif op == "getitem":
+                # reading one element: any index a list accepts (int, numpy integer, an object with __index__)
+                if not shadow:
+                    continue
+                i = rng.randint(-len(shadow), len(shadow) - 1)
+                import numpy as np
+                how = rng.choice(["int", "numpy.int64", "numpy.intp", "__index__-object", "bool"])
+                if how == "bool" and len(shadow) < 2:
+                    how = "int"
+                ix = {"int": i, "numpy.int64": np.int64(i), "numpy.intp": np.intp(i), "__index__-object": _Index(i), "bool": bool(i % 2)}[how]
+                desc += [i, how]
+                ctx.cat("getitem:" + how)
+                want = shadow[ix]
+                got = res[ix]
+                if not (got is want or got == want) or isinstance(got, list):
+                    ctx.violation("getitem:wrong-element", "res[%r] gave %r, the list gives %r" % (ix, got, want), hist + [desc])
+                    return
+            elif op == "construct":
                 shadow = list(items)
                 res = AR(mk())
             elif op == "append":
